@@ -28,10 +28,13 @@ def bound(tier):
 ELLS = {"IAU76": lambda: IAU76, "WGS84": lambda: WGS84,
         "sphere": lambda: Ellipsoid(6378137.0, 0.0, 7.292e-5),
         "f005": lambda: Ellipsoid(6378137.0, 0.005, 7.292e-5),
-        "f01": lambda: Ellipsoid(6378000.0, 0.01, 7.0e-5)}
+        "f01": lambda: Ellipsoid(6378000.0, 0.01, 7.0e-5),
+        "norot": lambda: Ellipsoid(6378137.0, 1.0 / 298.257223563, 0.0)}
+# the rotation rate handed to the constructor (not read back from the object)
+OMEGA_GIVEN = {"sphere": 7.292e-5, "f005": 7.292e-5, "f01": 7.0e-5, "norot": 0.0}
 LATS = [90, 89.999, 66.5, 45, 33.356, 1e-6]
 LATS = sorted(set(LATS + [-x for x in LATS] + [0]))
-HEIGHTS = [-500, 0, 1706, 9000]
+HEIGHTS = [-500, 0, 1706, 9000, 0.5, -0.5, 1e-3, 0.999, -1.0]
 REL = 1e-12
 
 
@@ -76,9 +79,11 @@ def check_ellipsoid(case):
         dev = abs(rp - a * rc) / a
         if dev > 1e-12:
             out.append(("parallel_radius", "rp = %r but a rho cos phi' = %r at latitude %r" % (rp, a * rc, lat), dev))
-        dev = abs(v - el._omega * rp)
+        om = OMEGA_GIVEN.get(case["ellipsoid"], el._omega)
+        dev = abs(v - om * rp)
         if dev > 1e-12 * max(1.0, abs(v)):
-            out.append(("speed", "linear_velocity = %r, omega * rp = %r" % (v, el._omega * rp), dev))
+            out.append(("speed", "linear_velocity = %r, omega * rp = %r (omega = %r as given to the ellipsoid)"
+                        % (v, om * rp, om), dev))
         lo, hi = b * b / a, a * a / b
         if not (lo * (1 - 1e-12) <= rm <= hi * (1 + 1e-12)):
             out.append(("rm_range", "rm(%r) = %r outside [b^2/a, a^2/b] = [%r, %r]" % (lat, rm, lo, hi), None))
@@ -135,7 +140,8 @@ def run_ellipsoid(block, ctx):
 
 POINTS = [(0, 0), (10, 0), (-170, 0), (170, 0), (180, 0), (90, 0), (0, 45), (0, -45), (0, 90), (0, -90),
           (77.065, 38.92), (-2.337, 48.836), (0, 1e-7), (1e-7, 0), (179.9, -0.1), (-179.95, 0.05),
-          (77.065, -10.5), (-102.935, -38.92), (0, 1), (0, 89.999), (0, 0.001)]
+          (77.065, -10.5), (-102.935, -38.92), (0, 1), (0, 89.999), (0, 0.001),
+          (10, 89.999999), (-170, 89.999999), (10, 89.99997), (-170, 89.99997), (10, -89.99999), (-170, -89.99999), (100, 89.9)]
 
 
 def simpson_meridian(e, p1, p2, n=2000):
@@ -180,6 +186,13 @@ def check_distance(case):
         if abs(d - exp) > 1e-4 * max(1.0, exp):
             out.append(("equator", "equatorial distance(%r,%r) = %r, a * dlon = %r" % (case["p1"], case["p2"], d, exp),
                         abs(d - exp) / max(1.0, exp)))
+    if abs(abs(l1 - l2) - 180.0) < 1e-12 and p1 * p2 > 0 and (abs(p1) < 90 or abs(p2) < 90):
+        # opposite meridians, same hemisphere: the geodesic runs over the pole - two meridian arcs
+        pole = math.copysign(90.0, p1)
+        s = simpson_meridian(e, p1, pole, n=400) + simpson_meridian(e, p2, pole, n=400)
+        if s > 0 and abs(d - s) > 2e-4 * max(1.0, s) and abs(d - s) > 2e-4 * s + 1e-6:
+            out.append(("over_pole", "distance(%r,%r) over the pole = %r, sum of the two meridian arcs %r"
+                        % (case["p1"], case["p2"], d, s), abs(d - s) / max(1e-9, s)))
     if l1 == l2 and p1 != p2:
         s = simpson_meridian(e, p1, p2)
         if abs(d - s) > 1e-4 * max(1.0, s):
